@@ -6,7 +6,8 @@ Lemmas/ConcData — the data invariant of one cell `x` guarded by one lock `g`.
    held   — `g` held, the thread's register for `x` not known to be current,
    loaded — `g` held and the register equals the cell,
 every `load x` / `store x` happens with `g` held, every `store x u` either follows a `load x` of the same critical section
-or is blind (`ap u` ignores its argument), and `g` is never re-acquired while held.
+or is blind (`ap u` ignores the REGISTER argument: a rebind, a subscript store, an `append`), and `g` is never re-acquired
+while held.
 
 Invariant (`DataInv`): per thread the `Shape` matching its mode, and for the ghost log of `x`
    * `LogOk`: every logged read returned, and every logged write was applied to, the value obtained by folding the
@@ -52,11 +53,11 @@ inductive Shape (g : L) (x : X) (blind : U → Bool) (cellx : V) (own : Option T
   | held (d : disc g x blind t.pc .held = true) (o : own = some i)
   | loaded (d : disc g x blind t.pc .loaded = true) (o : own = some i) (e : t.reg x = cellx)
 
-structure DataInv (g : L) (x : X) (blind : U → Bool) (ap : U → V → V) (v0 : V) (all : List U)
+structure DataInv (g : L) (x : X) (blind : U → Bool) (ap : U → V → V → V) (v0 : V) (all : List U)
     (s : St L X U V) : Prop where
   shape : ∀ i t, s.threads[i]? = some t → Shape g x blind (s.cell x) (s.owner g) i t
-  cellEq : s.cell x = cur ap v0 (s.log x)
-  logOk : LogOk ap v0 (s.log x)
+  cellEq : s.cell x = cur (lin ap) v0 (s.log x)
+  logOk : LogOk (lin ap) v0 (s.log x)
   perm : (applied (s.log x) ++ pending x s.threads).Perm all
 
 /-! ### `pending` under replacement of one thread record -/
@@ -109,7 +110,7 @@ theorem Shape.of_owner_none {g : L} {x : X} {blind : U → Bool} {c c' : V} {own
   | loaded d o e => rw [ho] at o; cases o
 
 /-- a step that leaves the cell, its log and the guard's owner alone and keeps thread `i`'s shape -/
-theorem dataInv_local {g : L} {x : X} {blind : U → Bool} {ap : U → V → V} {v0 : V} {all : List U}
+theorem dataInv_local {g : L} {x : X} {blind : U → Bool} {ap : U → V → V → V} {v0 : V} {all : List U}
     {s s' : St L X U V} {i : Tid} {t t' : Thread L X U V}
     (inv : DataInv g x blind ap v0 all s) (ht : s.threads[i]? = some t)
     (hc : s'.cell x = s.cell x) (ho : s'.owner g = s.owner g) (hl : s'.log x = s.log x)
@@ -137,7 +138,7 @@ theorem Shape.advance {g : L} {x : X} {blind : U → Bool} {c : V} {own : Option
   | held d o => exact .held (hd _ d) o
   | loaded d o e => exact .loaded (hd _ d) o (hr ▸ e)
 
-theorem dataInv_init {g : L} {x : X} {blind : U → Bool} {ap : U → V → V} (c0 : X → V)
+theorem dataInv_init {g : L} {x : X} {blind : U → Bool} {ap : U → V → V → V} (c0 : X → V)
     (progs : List (List (Micro L X U))) (h : ∀ p ∈ progs, disc g x blind p .out = true) :
     DataInv g x blind ap (c0 x) (pending x (init c0 progs).threads) (init c0 progs) := by
   constructor
@@ -153,8 +154,8 @@ theorem dataInv_init {g : L} {x : X} {blind : U → Bool} {ap : U → V → V} (
   · simp [init, LogOk]
   · simp [init, applied]
 
-theorem dataInv_step {g : L} {x : X} {blind : U → Bool} {ap : U → V → V} {v0 : V} {all : List U}
-    (hblind : ∀ u, blind u = true → ∀ a b, ap u a = ap u b)
+theorem dataInv_step {g : L} {x : X} {blind : U → Bool} {ap : U → V → V → V} {v0 : V} {all : List U}
+    (hblind : ∀ u, blind u = true → ∀ a b c, ap u a c = ap u b c)
     {s s' : St L X U V} {i : Tid}
     (inv : DataInv g x blind ap v0 all s) (h : step ap s i = some s') : DataInv g x blind ap v0 all s' := by
   obtain ⟨t, m, r, ht, hpc, he⟩ := step_some h
@@ -224,13 +225,13 @@ theorem dataInv_step {g : L} {x : X} {blind : U → Bool} {ap : U → V → V} {
     by_cases hyx : y = x
     · subst hyx
       -- the stored value is `ap u` of the current cell
-      have hval : ap u (t.reg y) = ap u (s.cell y) ∧ s.owner g = some i ∧ disc g y blind r .loaded = true := by
+      have hval : ap u (t.reg y) (s.cell y) = lin ap u (s.cell y) ∧ s.owner g = some i ∧ disc g y blind r .loaded = true := by
         cases hsh with
         | out d o => rw [hpc] at d; simp [disc] at d
         | held d o =>
           rw [hpc] at d; simp [disc] at d
-          exact ⟨hblind u d.1 _ _, o, d.2⟩
-        | loaded d o e => rw [hpc] at d; simp [disc] at d; exact ⟨by rw [e], o, d⟩
+          exact ⟨hblind u d.1 _ _ _, o, d.2⟩
+        | loaded d o e => rw [hpc] at d; simp [disc] at d; exact ⟨by rw [e]; rfl, o, d⟩
       obtain ⟨hv, hown, hd⟩ := hval
       constructor
       · intro j tj hj
@@ -245,7 +246,7 @@ theorem dataInv_step {g : L} {x : X} {blind : U → Bool} {ap : U → V → V} {
       · simp only [upd_same, LogOk]
         exact ⟨by rw [hv, inv.cellEq], inv.logOk⟩
       · simp only [upd_same, applied]
-        have hp := pending_set_cons (t' := { t with pc := r, reg := upd t.reg y (ap u (t.reg y)) }) y u ht
+        have hp := pending_set_cons (t' := { t with pc := r, reg := upd t.reg y (ap u (t.reg y) (s.cell y)) }) y u ht
           (by simp [hpc, stores])
         refine List.Perm.trans ?_ inv.perm
         simp only [List.cons_append]
@@ -267,8 +268,8 @@ theorem dataInv_step {g : L} {x : X} {blind : U → Bool} {ap : U → V → V} {
     refine dataInv_local inv ht rfl rfl rfl rfl ?_ (by simp [hpc, stores])
     exact hsh.advance (fun m d => by rw [hpc] at d; simpa [disc] using d) rfl
 
-theorem dataInv_run {g : L} {x : X} {blind : U → Bool} {ap : U → V → V}
-    (hblind : ∀ u, blind u = true → ∀ a b, ap u a = ap u b) (c0 : X → V)
+theorem dataInv_run {g : L} {x : X} {blind : U → Bool} {ap : U → V → V → V}
+    (hblind : ∀ u, blind u = true → ∀ a b c, ap u a c = ap u b c) (c0 : X → V)
     (progs : List (List (Micro L X U))) (h : ∀ p ∈ progs, disc g x blind p .out = true) (sched : List Tid) :
     DataInv g x blind ap (c0 x) (pending x (init c0 progs).threads) (run ap (init c0 progs) sched) :=
   run_induction _ (fun _ _ _ inv hs => dataInv_step hblind inv hs) sched _ (dataInv_init c0 progs h)
